@@ -666,3 +666,19 @@ Inductive wf_val (ctx : sctx) : pval -> Prop :=
     Forall (fun kx => wf_name ctx (fst kx) /\ wf_val ctx (snd kx)) ps ->
     wf_refs ctx rs -> wf_val ctx (VEnt id r d ps rs).
 Definition wf_ent (ctx : sctx) (e : ent) : Prop := wf_val ctx (val_of_ent e).
+
+(** ** The parser's key cache (EntityStreamParser.localPropertyMappings), variant-free.
+    parseProperties / parseReferences look a key up in the cache before resolving it against the
+    payload's context, and store [cache[key] = resolved name] on a miss.  The functions above
+    call [resolve] directly: the cache is transparent as long as every entry is keyed by the
+    PAYLOAD key it was resolved from ([cache_ok], proved preserved in Proofs/ParserProofs.v);
+    the correspondence run exercises it with payloads whose keys are textually equal to the
+    receiving hub's own global names. *)
+Definition kcache := list (string * name).
+Definition cache_ok (ns : nsmap) (c : kcache) : Prop :=
+  forall k q, lookup k c = Some q -> resolve ns k = Some q.
+Definition resolve_cached (ns : nsmap) (c : kcache) (k : string) : option name * kcache :=
+  match lookup k c with
+  | Some q => (Some q, c)
+  | None => match resolve ns k with Some q => (Some q, (k, q) :: c) | None => (None, c) end
+  end.
